@@ -469,6 +469,23 @@ CLAIMED.update(
     }
 )
 
+CLAIMED.update(
+    {
+        "C03": (
+            "table agreement between the tracer callbacks (interpreted from source to find what their true outcome means), get_branch_type and the CFG edge labelling, per version and conditional-jump opcode; set equality of the opcode tables; symbolic stack for operand order; must-call and pair-finally rules",
+            "Decides the agreement clauses: for every supported version and every opcode in COND_BRANCH_NAMES, the outcome the tracer records as true (bool / compare-with-None / exception-match callbacks interpreted over "
+            "complementary inputs, for-loop constants read from the visitors) is the CFG edge labelled True (get_branch_type arms + the labelling in CFG._create_nodes_and_edges), given when the opcode jumps; the opcodes "
+            "with a branch type are exactly COND_BRANCH_NAMES and the none-based mapping covers the none-based jumps; predicate callbacks receive (left, right) / (exception, match type) / the tested value; every "
+            "predicate visitor registers its predicate, visit_node dispatches to all of them, ends in the bool-based visitor and returns early only for jump-less blocks, excluded code and unconditional jumps; "
+            "both outcomes of every predicate are goals, BranchGoal.is_covered reads the distance map of its own outcome, given_exception_matches agrees with `except` for classes, tuples and nested tuples; "
+            "temporarily_disable/enable restore the tracing state in a finally and the callbacks compute under temporarily_disable. "
+            "Not decided: that the predicate's basic block executes once per evaluation, short-circuit structure, exception edges, the bytecode library's is_cond_jump().",
+            "Trusts the jump table JUMPS_WHEN (when each conditional-jump opcode jumps, from the dis documentation), sa/checks/_instr.py and sa/engine/peval.py.",
+            "DESIGN.md §3 C03",
+        ),
+    }
+)
+
 NOT_APPLICABLE: dict[str, str] = {
     "C06": "Correctness of the post-dominator/CDG construction on every code object is functional correctness of a graph "
     "algorithm; no shape of the code implies it and no sound static argument in reach bounds 'all code objects'.",
